@@ -7,7 +7,7 @@ import dbgen
 import dbmodel as M
 import iotie
 
-PURE_KINDS = ["read", "getter", "reindex", "remove_none", "update_nochange", "update_nomatch", "len_iter", "handle_read", "update_all_same", "unset_other_namespace"]
+PURE_KINDS = ["read", "getter", "reindex", "remove_none", "update_nochange", "update_nomatch", "len_iter", "handle_read", "update_all_same", "unset_other_namespace", "time_neighbour_nomatch", "grown_file_nomatch"]
 WRITE_KINDS = ["insert", "remove_some", "update_some", "drop", "remove_all", "update_raises", "insert_multiple_bad", "remove_all_match", "update_all_match"]
 MUTATING_P_CALLS = {"write", "truncate"}
 
@@ -40,6 +40,10 @@ def make_op(g, kind):
                          ("handle", r.choice(["m1", "m2", "_default"]), ("update_all", {"unset_tags": ["n", "a_b"]})),
                          ("handle", r.choice(["m1", "m2", "_default"]), ("update", ("noop", "tags"), {"unset_fields": ["id"]})),
                          ("handle", r.choice(["m1", "m2", "_default"]), ("update_all", {"unset_tags": ["n"], "unset_fields": ["id"]}))])
+    if kind == "time_neighbour_nomatch":
+        return ("remove", nomatch, None)          # (replaced in main, where the stored instants are known)
+    if kind == "grown_file_nomatch":
+        return r.choice([("remove", nomatch, None), ("drop", "ghost"), ("handle", "ghost", ("remove", ("noop", "tags"))), ("update", nomatch, {"fields": ("static", {"a": 5})}, None)])
     if kind == "update_nomatch":
         return r.choice([("update", nomatch, {"fields": ("static", {"a": 5})}, None), ("handle", "m3", ("update_all", {"fields": ("static", {"a": 5})}))])
     if kind == "update_all_same":
@@ -128,12 +132,36 @@ def main(tier, seed):
             op = r.choice([("update_all", {"tags": ("static", {"zz9": "x"}), "unset_tags": ["zz9"]}),
                            ("update_all", {"fields": ("static", {"zz9": 1}), "unset_fields": ["zz9"]}),
                            ("update", ("noop", "tags"), {"tags": ("static", {"zz9": "x"}), "fields": ("static", {"zz8": 2}), "unset_tags": ["zz9"], "unset_fields": ["zz8", "zz7"]}, None)])
+        pre_hook = None
+        if kind == "time_neighbour_nomatch":
+            # a removal / update selected by `time == t` where NO point is stamped t but one is stamped one microsecond later (or earlier), with a
+            # valid index answering: it matches nothing
+            auto = True
+            pts.sort(key=lambda p: p["time"])
+            stamps = {p["time"] for p in pts}
+            cand = [t + d for t in sorted(stamps) for d in (-1, 1) if t + d not in stamps]
+            t_abs = r.choice(cand)
+            hist = [("insert", pts, None, "multiple"), ("count", ("noop", "tags"), None)]
+            tq = ("S", "time", [], ("cmp", "==", ("t", t_abs)))
+            op = r.choice([("remove", tq, None), ("update", tq, {"tags": ("static", {"hit": "1"})}, None), ("remove", ("not", ("S", "time", [], ("cmp", "!=", ("t", t_abs)))), None)])
+        if kind == "grown_file_nomatch":
+            # this object was opened on an EMPTY file and has answered a read (its index is valid and empty); then rows arrive through a second
+            # object on the same file, which is closed again; a removal / update through the first object that matches nothing changes nothing
+            hist = [("count", ("noop", "tags"), None)]
+            arrived = list(pts)
+
+            def pre_hook(s, _arrived=arrived):
+                other = tf.TinyFlux(s.path, auto_index=False)
+                other.insert_multiple([M.real_point(tf, p) for p in _arrived])
+                other.close()
         if kind == "unset_other_namespace":
             hist = [("insert", pts, None, "multiple", "compact")] + [h for h in hist[1:] if h[0] not in ("insert", "update_all")]
         if mode == "a":
             auto = False          # with auto_index the constructor itself reads (and raises) in append-only mode
         other = i % 3 == 1
-        rec = iotie.recorded_run(tf, str(ck.work / f"rec{i}"), hist, op, auto, other_fs=other, mode=mode)
+        if kind == "grown_file_nomatch":
+            mode = None
+        rec = iotie.recorded_run(tf, str(ck.work / f"rec{i}"), hist, op, auto, other_fs=other, mode=mode, pre_hook=pre_hook)
         if rec.get("open_failed"):
             stats[f"open in mode {mode} raised {rec['open_failed']}"] = stats.get(f"open in mode {mode} raised {rec['open_failed']}", 0) + 1
             continue
@@ -155,7 +183,7 @@ def main(tier, seed):
             # (flush/seek change nothing when nothing is buffered; write/truncate on the primary are state changes)
             if rec["before_bytes"] != rec["after_bytes"]:
                 why = "a read / no-op operation wrote to the primary file"
-        elif mode in ("r", "a") and kind in ("remove_none", "update_nochange", "update_nomatch", "update_all_same", "unset_other_namespace") and not raised:
+        elif mode in ("r", "a") and kind in ("remove_none", "update_nochange", "update_nomatch", "update_all_same", "unset_other_namespace", "time_neighbour_nomatch") and not raised:
             why = f"a write operation (although it would change nothing) on a database opened with access mode {mode!r} did not raise"
         elif readonly and kind in WRITE_KINDS:
             if not raised:
@@ -169,7 +197,7 @@ def main(tier, seed):
                                "history": hist, "op": op, "outcome": rec["out"], "calls": [f"{e[1]}.{e[2]}" for e in ev][:60],
                                "listing_before": rec["lst_before"], "listing_after": rec["lst_after"],
                                "bytes_before": len(rec["before_bytes"] or b""), "bytes_after": len(rec["after_bytes"] or b"")})
-        if mode in (None, "r+") and rec["after"] is not None:
+        if mode in (None, "r+") and rec["after"] is not None and kind != "grown_file_nomatch":
             coq_cases.append((auto, hist, op, pure, rec["after"]))
     # "once it has returned OR RAISED": an OSError injected at every I/O boundary of rewriting operations; nothing may be left behind
     n_fault_hist = 3 if tier == "quick" else 20
